@@ -30,6 +30,7 @@
  * json_c_get_random_seed is replaced through --wrap (tools/props/c18.py WRAPS).
  */
 #define _GNU_SOURCE
+#define HC_NO_WATCHDOG /* this harness does its own timing */
 #include "hcommon.h"
 #include <fcntl.h>
 #include <pthread.h>
